@@ -367,7 +367,17 @@ static void op_decompmt(const V &a, V &r) {
     for (int t = 0; t < nt; t++) th.emplace_back([&, t]() {
         for (int it = 0; it < iters; it++) { tGswTorus32PolynomialDecompH(out[t], in[t], gp); calls++;
             bool same = true; for (int p = 0; p < l && same; p++) for (int j = 0; j < N; j++) if (out[t][p].coefs[j] != ref[t][p].coefs[j]) { same = false; break; }
-            if (!same) bad++; } });
+            if (!same) bad++; }
+        // operands that live far apart: the input was allocated by the main thread (brk heap), these results by this thread (its own malloc
+        // arena, a mapping tens of terabytes away) and in a mapping placed by the kernel; the digits written must not depend on the distance
+        { IntPolynomial *mine = new_IntPolynomial_array(l, N); tGswTorus32PolynomialDecompH(mine, in[t], gp); calls++;
+          bool same = true; for (int p = 0; p < l && same; p++) for (int j = 0; j < N; j++) if (mine[p].coefs[j] != ref[t][p].coefs[j]) { same = false; break; }
+          if (!same) bad++;
+          TorusPolynomial *tin = new_TorusPolynomial(N); for (int j = 0; j < N; j++) tin->coefsT[j] = in[t]->coefsT[j];
+          tGswTorus32PolynomialDecompH(out[t], tin, gp); calls++;      // input in the thread arena, result in the main heap
+          same = true; for (int p = 0; p < l && same; p++) for (int j = 0; j < N; j++) if (out[t][p].coefs[j] != ref[t][p].coefs[j]) { same = false; break; }
+          if (!same) bad++;
+          delete_TorusPolynomial(tin); delete_IntPolynomial_array(l, mine); } });
     for (auto &x : th) x.join();
     r.push_back(bad); r.push_back(calls);
     for (int t = 0; t < nt; t++) { delete_IntPolynomial_array(l, out[t]); delete_IntPolynomial_array(l, ref[t]); delete_TorusPolynomial(in[t]); }
